@@ -127,15 +127,19 @@ func runTBLS(t *core.Tape, tier string, info *core.RunInfo) *core.Violation {
 	if err != nil {
 		return viol("setup", "tbls/setup-sign/"+c.name, "bls.Sign: %v", err)
 	}
-	if err := bs.Verify(pub.Commit(), msg, want); err != nil {
+	if err := bs.Verify(pub.Commit(), rx(msg), want); err != nil {
 		return viol("bls", "bls/honest-signature-rejected/"+c.name, "a BLS signature does not verify under the signer's key: %v", err)
 	}
-	other := append(kit.CopyBytes(msg), 0x7)
-	if bs.Verify(pub.Commit(), other, want) == nil {
+	// another message of the SAME length, and every message is handed to the verifier in one reused
+	// receive buffer (rx): a verifier that remembers its last message by reference instead of by
+	// value then confuses the two (seed C09e)
+	other := kit.CopyBytes(msg)
+	other[len(other)-1] ^= 0x7
+	if bs.Verify(pub.Commit(), rx(other), want) == nil {
 		return viol("bls", "bls/accepted-for-other-message/"+c.name, "a BLS signature verifies for another message")
 	}
 	otherKey := keyG.Point().Mul(keyG.Scalar().SetBytes(t.Bytes("keys", 48)), nil)
-	if !otherKey.Equal(pub.Commit()) && bs.Verify(otherKey, msg, want) == nil {
+	if !otherKey.Equal(pub.Commit()) && bs.Verify(otherKey, rx(msg), want) == nil {
 		return viol("bls", "bls/accepted-for-other-key/"+c.name, "a BLS signature verifies under another key")
 	}
 	honest := make([][]byte, n)
@@ -282,7 +286,7 @@ func runTBLS(t *core.Tape, tier string, info *core.RunInfo) *core.Violation {
 			}
 			info.Events++
 			var verr error
-			if pn := core.Guard(func() { verr = ts.VerifyPartial(pub, msg, a.sig) }); pn != nil {
+			if pn := core.Guard(func() { verr = ts.VerifyPartial(pub, rx(msg), a.sig) }); pn != nil {
 				return viol("totality", "tbls/verifypartial-panic/"+c.name, "VerifyPartial(%s, %d bytes) panicked: %v | %s", a.kind, len(a.sig), pn, core.LastStack())
 			}
 			info.SigAdd("%d:%s:%d:%v", ag, a.kind, a.idx, verr == nil)
@@ -302,7 +306,7 @@ func runTBLS(t *core.Tape, tier string, info *core.RunInfo) *core.Violation {
 			}
 			var rec []byte
 			var rerr error
-			if pn := core.Guard(func() { rec, rerr = ts.Recover(pub, msg, sigs, uint32(th), uint32(n)) }); pn != nil {
+			if pn := core.Guard(func() { rec, rerr = ts.Recover(pub, rx(msg), sigs, uint32(th), uint32(n)) }); pn != nil {
 				return viol("totality", "tbls/recover-panic/"+c.name, "Recover panicked with %d entries: %v | %s", len(sigs), pn, core.LastStack())
 			}
 			if len(validIdx) >= th {
@@ -312,10 +316,10 @@ func runTBLS(t *core.Tape, tier string, info *core.RunInfo) *core.Violation {
 				if !bytes.Equal(rec, want) {
 					return viol("recover", "tbls/recovered-differs-from-unique/"+c.name, "recovered signature differs from the signature of the group secret")
 				}
-				if err := ts.VerifyRecovered(pub.Commit(), msg, rec); err != nil {
+				if err := ts.VerifyRecovered(pub.Commit(), rx(msg), rec); err != nil {
 					return viol("recover", "tbls/recovered-does-not-verify/"+c.name, "VerifyRecovered: %v", err)
 				}
-				if ts.VerifyRecovered(pub.Commit(), other, rec) == nil {
+				if ts.VerifyRecovered(pub.Commit(), rx(other), rec) == nil {
 					return viol("recover", "tbls/recovered-verifies-other-message/"+c.name, "recovered signature verifies for another message")
 				}
 				if last == nil {
@@ -343,6 +347,16 @@ func runTBLS(t *core.Tape, tier string, info *core.RunInfo) *core.Violation {
 	}
 	_ = sigG
 	return nil
+}
+
+// rx models a receive buffer that is reused for every delivery: the message is copied into the same
+// backing array each time, so consecutive verifications see the same slice header with new content.
+var rxbuf [512]byte
+
+func rx(m []byte) []byte {
+	b := rxbuf[:len(m):len(m)]
+	copy(b, m)
+	return b
 }
 
 func baseKind(k string) string {
@@ -525,7 +539,7 @@ func runBDN(t *core.Tape, tier string, info *core.RunInfo) *core.Violation {
 		return viol("aggregate", "bdn/aggregate-error/"+c.name+"/"+routes[route], "aggregating (route %s): %v", routes[route], err)
 	}
 	sb, _ := aggSig.MarshalBinary()
-	if err := sc.Verify(aggPub, msg, sb); err != nil {
+	if err := sc.Verify(aggPub, rx(msg), sb); err != nil {
 		return viol("aggregate", "bdn/aggregate-does-not-verify/"+c.name+"/"+routes[route], "aggregate over mask %x does not verify under the aggregate key of that mask (route %s): %v", want, routes[route], err)
 	}
 	info.SigAdd("bdn:%s:%x", routes[route], want)
@@ -577,7 +591,7 @@ func runBDN(t *core.Tape, tier string, info *core.RunInfo) *core.Violation {
 				return viol("aggregate", "bdn/aggregate-error/"+c.name+"/reuse", "%v", err)
 			}
 			ab, _ := as.MarshalBinary()
-			if err := sc.Verify(kc, msg, ab); err != nil {
+			if err := sc.Verify(kc, rx(msg), ab); err != nil {
 				return viol("aggregate", "bdn/aggregate-does-not-verify/"+c.name+"/reused-base", "aggregation %d over a clone of a reused base mask (bits %x) does not verify: %v", r, cm.Mask(), err)
 			}
 			info.Events++
@@ -585,8 +599,9 @@ func runBDN(t *core.Tape, tier string, info *core.RunInfo) *core.Violation {
 		info.Faults["base-mask-reused"]++
 	}
 	// under no other mask or message
-	other := append(kit.CopyBytes(msg), 1)
-	if sc.Verify(aggPub, other, sb) == nil {
+	other := kit.CopyBytes(msg)
+	other[0] ^= 1
+	if sc.Verify(aggPub, rx(other), sb) == nil {
 		return viol("aggregate", "bdn/verifies-other-message/"+c.name, "aggregate verifies for another message")
 	}
 	if n > 1 {
@@ -595,7 +610,7 @@ func runBDN(t *core.Tape, tier string, info *core.RunInfo) *core.Violation {
 		_ = om.SetBit(flip, !part[flip])
 		if om.CountEnabled() > 0 {
 			op, err := sc.AggregatePublicKeys(om)
-			if err == nil && sc.Verify(op, msg, sb) == nil {
+			if err == nil && sc.Verify(op, rx(msg), sb) == nil {
 				return viol("aggregate", "bdn/verifies-under-other-mask/"+c.name, "aggregate for mask %x verifies under the key of mask %x", want, om.Mask())
 			}
 			info.Probe("bdn-other-mask-rejected")
@@ -608,7 +623,7 @@ func runBDN(t *core.Tape, tier string, info *core.RunInfo) *core.Violation {
 		sw[i], sw[i+1] = sw[i+1], sw[i]
 		if ag2, err := sc.AggregateSignatures(sw, ref); err == nil {
 			b2, _ := ag2.MarshalBinary()
-			if sc.Verify(refPub, msg, b2) == nil && !bytes.Equal(sigs[i], sigs[i+1]) {
+			if sc.Verify(refPub, rx(msg), b2) == nil && !bytes.Equal(sigs[i], sigs[i+1]) {
 				return viol("aggregate", "bdn/swapped-signatures-verify/"+c.name, "aggregate built from signatures out of index order verifies")
 			}
 		}
